@@ -353,3 +353,86 @@ def _wrap_unit(fname, which, n, mode):
 
 U_MIX_WRAPPERS = [_wrap_unit(fn, w, n, m) for fn, w in (("mix_by_weight", "weight"), ("mix_by_volume", "volume"))
                   for n, m in ((2, "plain"), (2, "density"), (1, "natural_density"), (2, "odd"), (1, "unknown-keyword"), (2, "table"))]
+
+
+# ------------------------------------------------------------------------------ '5 g NaCl // 50 mL H2O@1' and '3 nm Fe // 2 um Ni' parse actions
+
+_MASS_U = {'ng': "1e-9", 'ug': "1e-6", 'mg': "1e-3", 'g': "1", 'kg': "1e3"}      # documented units (guide): grams
+_VOL_U = {'nL': "1e-9", 'uL': "1e-6", 'mL': "1e-3", 'L': "1"}                      # litres
+_LEN_U = {'nm': "1e-9", 'um': "1e-6", 'mm': "1e-3", 'cm': "1e-2"}                  # metres
+
+
+def _abs_inputs(units, nested):
+    """tokens of `<v0> <u0> part0 // <v1> <u1> part1` (or, nested, `( mixture ) <count>` for the first part)"""
+    def mk(st, interp):
+        use_state(st)
+        toks, vals, parts = [], [], []
+        for i, u in enumerate(units):
+            v = st.fresh("amount%d" % i, z3.RealSort())
+            st.assume(v > 0)
+            d = st.fresh("density%d" % i, z3.RealSort())
+            dn = st.fresh("density%d_is_none" % i, z3.BoolSort())
+            st.assume(d > 0)
+            part = VObj((FORMULAS, "Formula"), {"id": i, "density": VOpt(dn, d)})
+            if nested and i == 0:
+                # a grouped mixture that already carries its total: `(...) <count>`: count multiplies its total
+                tm = st.fresh("group_total", z3.RealSort())
+                st.assume(tm > 0)
+                part.attrs["total_mass"] = tm
+                part.attrs["thickness"] = tm
+                toks += [part, v]
+                vals.append(("group", v, tm, part))
+            else:
+                toks += [VList([v, u]), part]
+                vals.append((u, v, VOpt(dn, d), part))
+            parts.append(part)
+        return [z3.StringVal("s"), z3.IntVal(0), VList(toks)], {}, {"vals": vals, "parts": parts}
+    return mk
+
+
+def _abs_post(kind):
+    def post(st, interp, C, res):
+        vals, parts = C["vals"], C["parts"]
+        need_density = [x[2].is_none for x in vals if x[0] in _VOL_U] if kind == "mass" else []
+        if res.outcome == "raise":
+            st.oblige("post.raises ValueError only when a component given by volume has no density",
+                      z3.And(z3.BoolVal(res.exc == "ValueError" and bool(need_density)), z3.Or(need_density) if need_density else z3.BoolVal(False)),
+                      kind="raises", info={"exc": res.exc})
+            return
+        r = res.value
+        which = "weight" if kind == "mass" else "volume"
+        ok = isinstance(r, VObj) and r.cls == "MixResult" and r.attrs["which"] == which and len(r.attrs["pairs"]) == len(parts)
+        st.oblige("post.calls the %s mixer with one pair per component" % which, z3.BoolVal(bool(ok)))
+        if not ok:
+            return
+        if need_density:
+            st.oblige("post.accepted only when every component given by volume has a density", z3.Not(z3.Or(need_density)))
+        amounts = []
+        for (u, v, x, part) in vals:
+            if u == "group":
+                amounts.append(x * v)                                   # total of the group times its count
+            elif kind == "mass":
+                amounts.append(v * z3.RealVal(_MASS_U[u]) if u in _MASS_U else v * z3.RealVal(_VOL_U[u]) * 1000 * x.val)   # grams
+            else:
+                amounts.append(v * z3.RealVal(_LEN_U[u]))              # metres
+        total = z3.Sum(amounts)
+        for i, (f, q) in enumerate(r.attrs["pairs"]):
+            st.oblige("post.component %d keeps its position" % i, z3.BoolVal(f is parts[i]))
+            st.oblige("post.component %d is mixed in proportion to its %s (documented unit factors; mL via density)" % (i, "mass in grams" if kind == "mass" else "thickness"),
+                      R(q) * total == 100 * amounts[i])
+        tot_attr = r.attrs.get("total_mass" if kind == "mass" else "thickness")
+        st.oblige("post.the mixture records its total %s" % ("mass in grams" if kind == "mass" else "thickness in metres"),
+                  spec.eq_goal(interp, st, tot_attr, total))
+    return post
+
+
+def _abs_unit(fn, kind, units, nested=False):
+    return Unit("formula_grammar.%s[%s%s]" % (fn, " // ".join(units), ", first part a counted group" if nested else ""), GRAMMAR + "::" + fn,
+                _abs_inputs(units, nested), _abs_post(kind),
+                contracts={FORMULAS + "._mix_by_weight_pairs": c_mix_pairs_record("weight"), FORMULAS + "._mix_by_volume_pairs": c_mix_pairs_record("volume")},
+                closure=_closure, writes={"total_mass", "thickness"}, replay={"module": "c11", "task": "replay"})
+
+
+U_BY_ABSMASS = [_abs_unit("convert_by_absmass", "mass", [u, "g"]) for u in list(_MASS_U) + list(_VOL_U)] + \
+               [_abs_unit("convert_by_absmass", "mass", ["mL", "uL", "kg"]), _abs_unit("convert_by_absmass", "mass", ["g", "mg"], nested=True)]
+U_BY_LAYER = [_abs_unit("convert_by_layer", "layer", [u, "nm"]) for u in _LEN_U] + [_abs_unit("convert_by_layer", "layer", ["nm", "um"], nested=True)]
